@@ -30,6 +30,7 @@ def step (line : String) : String :=
     | "udpq" => udpqCmd args
     | "tcpconc" => tcpconcCmd args
     | "framerelay" => framerelayCmd args
+    | "binframe" => binframeCmd args
     | "qjudge" => qjudgeCmd args
     | "queueblk" => queueblkCmd args
     | _ => "bad-op"
